@@ -750,11 +750,16 @@ func ruleTabCast(c *Ctx, r *R) {
 		r.undecided("compile", "-", err.Error())
 		return
 	}
-	sc := cs.ByLabel["var"]
-	if sc == nil {
-		r.undecided("var", "-", "no compile-case for var")
-		return
+	for _, label := range []string{"var", "const"} {
+		if sc := cs.ByLabel[label]; sc != nil {
+			tabCastCase(c, r, sc, label)
+		} else {
+			r.undecided(label, "-", "no compile-case for "+label)
+		}
 	}
+}
+
+func tabCastCase(c *Ctx, r *R, sc *switchCase, label string) {
 	// emission sites of codeCast in the declaration case
 	var sites []*ast.CompositeLit
 	ast.Inspect(sc.Clause, func(n ast.Node) bool {
@@ -809,6 +814,9 @@ func ruleTabCast(c *Ctx, r *R) {
 	tags := c.typeTags()
 	for _, tag := range numericTags {
 		key := "cast " + tag
+		if label != "var" {
+			key = "cast " + label + " " + tag
+		}
 		okAll, decided := true, true
 		for _, cd := range conds {
 			v, ok := c.evalWith(cd, typObj, constant.MakeInt64(tags[tag]))
@@ -825,7 +833,7 @@ func ruleTabCast(c *Ctx, r *R) {
 			continue
 		}
 		r.check(okAll, key, c.Pos(site), "CAST emitted for declared type "+goTypeOfTag[tag],
-			fmt.Sprintf("`var x %s = <untyped or other numeric>` emits no CAST: the guard %s is false for %s, so the variable keeps the initialiser's type (int32)", goTypeOfTag[tag], c.Src(conds[0]), tag))
+			fmt.Sprintf("`%s x %s = <untyped or other numeric>` emits no CAST: the guard %s is false for %s, so the variable keeps the initialiser's type (int32)", label, goTypeOfTag[tag], c.Src(conds[0]), tag))
 	}
 }
 
@@ -1040,6 +1048,34 @@ func (c *Ctx) shiftCountOK(t *T) (bool, string) {
 	if t.Op == "call" {
 		if fd := c.Func(t.Name); fd != nil && fd.Type.Results != nil && len(fd.Type.Results.List) == 1 {
 			if bt, ok := c.TypeOf(fd.Type.Results.List[0].Type).Underlying().(*types.Basic); ok && bt.Info()&types.IsUnsigned != 0 && (bt.Kind() == types.Uint || bt.Kind() == types.Uint32 || bt.Kind() == types.Uint64 || bt.Kind() == types.Uintptr) {
+				// and nothing inside the helper narrows the count on its way out
+				narrow := ""
+				ast.Inspect(fd.Body, func(n ast.Node) bool {
+					rs, ok := n.(*ast.ReturnStmt)
+					if !ok {
+						return true
+					}
+					for _, res := range rs.Results {
+						ast.Inspect(res, func(k ast.Node) bool {
+							if cv, ok := k.(*ast.CallExpr); ok {
+								if ty, isConv := c.IsConversion(cv); isConv {
+									if b2, ok := ty.Underlying().(*types.Basic); ok && b2.Info()&types.IsInteger != 0 {
+										switch b2.Kind() {
+										case types.Uint, types.Uint32, types.Uint64, types.Uintptr:
+										default:
+											narrow = b2.Name()
+										}
+									}
+								}
+							}
+							return true
+						})
+					}
+					return true
+				})
+				if narrow != "" {
+					return false, "the shift count passes through " + narrow + " inside " + t.Name + ", which wraps it (a count of 256 becomes 0, a large count negative)"
+				}
 				return true, ""
 			}
 		}
